@@ -30,7 +30,7 @@ type fireCtx struct {
 	err  error
 }
 
-func newFireCtx() *fireCtx { return &fireCtx{Context: context.Background(), done: make(chan struct{})} }
+func newFireCtx() *fireCtx               { return &fireCtx{Context: context.Background(), done: make(chan struct{})} }
 func (c *fireCtx) Done() <-chan struct{} { return c.done }
 func (c *fireCtx) Err() error {
 	c.mu.Lock()
